@@ -106,6 +106,7 @@ func init() {
 		ID:    "C19",
 		Title: "Errors surface with the right class, message and source position",
 		Rule: "full products: error construct x nesting shapes (stacks of 0..4) x layout (separator, preceding material, line terminator) x argument list of every call site (none, nested call, call on a later line, several calls, new, getter, method call) x entry (Run(string), Compile(\"\"), Compile(\"t.js\")) x trace limit; " +
+			"syntax errors: bad construct x lines before x terminator kind, and x every string of length <= 3 (thorough 4) over {LF, CR, U+2028, U+2029, space, statement} before the offending token (bare / inside a block comment), through Run, Compile, parser.ParseFile and eval; " +
 			"every case runs the generated program on a fresh runtime and compares class, Error() text and every frame of Error.String() with the generator's own positions; " +
 			"a case is non-trivial when at least one frame position is asserted away from 1:1 or more than one frame is expected",
 		Families: []engine.Family{
@@ -1107,6 +1108,7 @@ var badSyntaxes = []badSyntax{
 
 func runSyntax(r *engine.Run) {
 	defer runSyntaxUTF8(r)
+	defer runSyntaxTermSeq(r)
 	type pre struct{ id, s string }
 	pres := []pre{{"none", ""}, {"spaces", "   "}, {"tab", "\t"}, {"stmt", "var q = 1; "}, {"stmts", "q = 1; r = 2;  "}}
 	maxLines := 3
